@@ -210,6 +210,12 @@ class Monitor:
                 self.add("C16", "agent-step-unfinished",
                          f"{sid}@{tt} begins while async agent {q} has unfinished "
                          f"step(s) {sorted(outst)[:2]}", sim=sid, other=q)
+                # the agent is connected to A's inputs through set_data: what it sets during
+                # a step earlier than this one is due at or before this step (C01)
+                self.add("C01", "async-producer-unfinished",
+                         f"{sid}@{tt} begins while {q}, which feeds it through set_data (async "
+                         f"connection), has unfinished earlier step(s) {sorted(outst)[:2]}",
+                         sim=sid, other=q)
         # ---- C07 max_advance
         if madv is not None:
             if madv > until:
@@ -291,19 +297,20 @@ class Monitor:
                 if c["dst"] != sid or not c.get("sattr"):
                     continue
                 p = c["src"]
-                key = f"{p}.e"
+                se = c.get("seid", "e")
+                key = f"{p}.{se}"
                 slot = exp.setdefault(c.get("deid", "e"), {}).setdefault(c["dattr"], {})
                 if T.is_persistent(c):
                     val = NONE
                     for (pk, ptt, ott, data) in self.outs[p]:
-                        if "po" in data.get("e", {}) and T.arrive(c, ott) <= tt:
-                            val = data["e"]["po"]
+                        if "po" in data.get(se, {}) and T.arrive(c, ott) <= tt:
+                            val = data[se]["po"]
                     if val is NONE and c.get("init"):
                         val = init_token(c)
                     slot[key] = val
                 else:
-                    due = [(pk, data["e"]["eo"]) for (pk, ptt, ott, data) in self.outs[p]
-                           if "eo" in data.get("e", {}) and T.arrive(c, ott) <= tt
+                    due = [(pk, data[se]["eo"]) for (pk, ptt, ott, data) in self.outs[p]
+                           if "eo" in data.get(se, {}) and T.arrive(c, ott) <= tt
                            and pk not in consumed[ci]]
                     if due:
                         for pk, _ in due:
@@ -330,6 +337,7 @@ class Monitor:
         if not isinstance(token, str):
             return None
         t = token[:-1] if token.endswith("e") else token
+        t = t[:-1] if t.endswith("F") else t          # second entity
         for p in self.T.sims:
             if t.startswith(p) and t[len(p):].isdigit():
                 return p, int(t[len(p):])
@@ -434,7 +442,7 @@ class Monitor:
         for ci, c in enumerate(T.conns):
             if c["src"] != sid or not c.get("sattr") or not T.is_trigger(c):
                 continue
-            if c["sattr"] in data.get("e", {}):
+            if c["sattr"] in data.get(c.get("seid", "e"), {}):
                 a = T.arrive(c, ott)
                 if a[0] < self.until:
                     self._demand(c["dst"], a, (sid, tt))
@@ -542,6 +550,11 @@ class Monitor:
                          f"run() stopped with the loop guard ({result[2][:120]}) but no named "
                          f"simulator demanded a sub-step beyond max_loop_iterations={T.max_loop}; "
                          f"over-limit demands: {exp_loop}")
+                # ... which also means that an accepted scenario whose loops all settle did not
+                # run to completion
+                self.add("C05", "spurious-loop-guard",
+                         f"run() ended with {result[:2]} ({result[2][:100]}) although no simulator "
+                         f"demands a sub-step beyond max_loop_iterations={T.max_loop}")
             else:
                 for sid in named:
                     # F22: the index that trips the guard was inherited from an earlier time step
@@ -559,6 +572,10 @@ class Monitor:
                                      f"({sorted(same_t)}) but run() stopped with the loop guard at "
                                      f"{bad}: the sub-step index was carried over from time "
                                      f"{bad[0] - 1} by a time-shifted connection",
+                                     cls="sub-step-index-carried-over-time-shift", sim=sid)
+                            self.add("C05", "spurious-loop-guard",
+                                     f"run() ended with the loop guard at {sid}@{bad} although {sid} "
+                                     f"performs only {len(same_t)} sub-step(s) at time {bad[0]}",
                                      cls="sub-step-index-carried-over-time-shift", sim=sid)
                             break
                     ex = [x for x in exp_loop[sid] if x in self.Xset[sid]]
